@@ -118,8 +118,36 @@ def r17_2(ctx):
             ok = Lv is not None and Norm(scg).poly(cn.args[2]) == Poly.atom(Lv) - 1 - Poly.atom(lv)
     ctx.check(ok, "SplineMethod: each link of a chain is the B-spline derivative divided by T", detail="chain derivative in normalised time", expected="e = bspline_derivative(e, self.xi, d-i)/self.T", found="; ".join(ast.unparse(x) for x in ds), fi=g)
     r = c.methods.get("register")
-    ok = r is not None and any(is_call_to(x, "get_der", "signal") for x in walk_no_nested(r.node)) and any(is_call_to(x, "register", "BSplineSignal") for x in walk_no_nested(r.node))
-    ctx.check(ok, "BSplineSignal.register registers the derivative chain declared on the stage", detail="derivative signals", expected="signal.get_der() registered recursively", found="", fi=r)
+    ok, found = False, "no register method"
+    if r is not None:
+        # simulated registration of a signal whose stage declaration has a second derivative (rkverif/sim.py)
+        from ..sim import Sim, fresh_obj
+        from ..layout import Sym, Obj, freeze, LayoutUnknown
+        s0, s1, s2 = Sym("sym", 0), Sym("sym", 1), Sym("sym", 2)
+        t2 = fresh_obj("target2", derivative=None, symbol=s2)
+        t1 = fresh_obj("target1", derivative=t2, symbol=s1)
+        t0 = fresh_obj("target0", derivative=t1, symbol=s0)
+        stage = fresh_obj("stage", _signals={freeze(s0): t0, freeze(s1): t1, freeze(s2): t2})
+        sig0 = fresh_obj("signal0", parametric=True, derivative=None, derivative_of=None, level=0)
+        peers = {}
+
+        def h_get_der(sim, recv, a, k, n):
+            if isinstance(recv, Obj) and "level" in recv.attrs:
+                return fresh_obj("signal%d" % (recv.attrs["level"] + 1), parametric=False, derivative=None, derivative_of=None, level=recv.attrs["level"] + 1, _from=recv)
+            return NotImplemented
+        sim = Sim(P, hooks={".get_der": h_get_der, "BSplineSignal.register": lambda s_, rc, a, k, n: s_.call_function(r, list(a), dict(k))})
+        try:
+            sim.call(r, [peers, s0, stage, sig0], {})
+            got = {k_: (v.attrs.get("level"), freeze(v.attrs.get("symbol")), v.attrs.get("peers") is peers, v.attrs.get("parametric")) for k_, v in peers.items() if isinstance(v, Obj)}
+            want = {freeze(s0): (0, freeze(s0), True, True), freeze(s1): (1, freeze(s1), True, True), freeze(s2): (2, freeze(s2), True, True)}
+            links = all(isinstance(peers.get(freeze(a_)), Obj) and peers[freeze(a_)].attrs.get("derivative") is peers.get(freeze(b_)) and peers[freeze(b_)].attrs.get("derivative_of") is peers[freeze(a_)]
+                        and peers[freeze(b_)].attrs.get("_from") is peers[freeze(a_)] for a_, b_ in ((s0, s1), (s1, s2)) if isinstance(peers.get(freeze(b_)), Obj))
+            ok = got == want and links
+            found = str(got)[:200]
+        except LayoutUnknown as e:
+            raise AnalysisError("BSplineSignal.register could not be simulated: %s" % e)
+    ctx.check(ok, "BSplineSignal.register registers the derivative chain declared on the stage", detail="derivative signals", expected="every derivative symbol of the declaration gets signal.get_der() of the level above, linked both ways, parametric flag inherited",
+              found=found, fi=r)
 
 
 @rule("R17.3", min_instances=5, desc="node samples: coefficients times the basis evaluated on the knots, split per node and addressed by the node index; derivative formula d*(c_{i+1}-c_i)/(xi_{i+d}-xi_i)")
